@@ -619,12 +619,49 @@ pub fn main(args: &[String], kind: &str) -> i32 {
 		});
 		let mut verdict: Result<(), String> = Ok(());
 		let interleave_budget = if rng.chance(1, 2) { rng.range(1, 12) as usize } else { 0 };
+		// (C16) the step at which file operations start to fail, and how many operations still succeed
+		let c16 = kind == "c16";
+		let stage_steps: Vec<usize> = case.steps.iter().enumerate().filter(|(_, s)| !matches!(s, Step::Commit(_))).map(|(i, _)| i).collect();
+		let fail_at: Option<(usize, usize)> = if c16 && !stage_steps.is_empty() {
+			let b = match rng.below(4) {
+				0 => rng.range(0, 3),
+				1 => rng.range(0, 8),
+				_ => rng.range(0, 40),
+			} as usize;
+			Some((*rng.pick(&stage_steps), b))
+		} else {
+			None
+		};
+		let lift_before_drop = c16 && rng.chance(1, 3);
+		let failure: Mutex<Option<(usize, usize, String)>> = Mutex::new(None); // (step, commits synced before it, error)
+		let c16_verdict: Mutex<Option<String>> = Mutex::new(None);
+		let synced_at_drop: Mutex<Option<usize>> = Mutex::new(None);
 		let run = std::panic::catch_unwind(std::panic::AssertUnwindSafe(|| {
 			let db = Db::open_or_create(&opts).expect("create");
 			DBPTR.store(&db as *const Db as usize, std::sync::atomic::Ordering::SeqCst);
 			INTERLEAVE_BUDGET.store(if kind == "c13" { 0 } else { interleave_budget }, std::sync::atomic::Ordering::SeqCst);
 			with(|t| t.enabled = true);
-			for s in &case.steps {
+			let mut armed = false;
+			let mut failed = false;
+			let unarmed = |f: &dyn Fn() -> Vec<u64>| -> Vec<u64> {
+				// reads are not pipeline file operations: the injection is suspended around them
+				let left = parity_db::verif_remaining_io_operations();
+				parity_db::set_number_of_allowed_io_operations(usize::MAX);
+				let r = f();
+				parity_db::set_number_of_allowed_io_operations(left);
+				r
+			};
+			for (si, s) in case.steps.iter().enumerate() {
+				if let Some((fs, budget)) = fail_at {
+					if si == fs && !armed {
+						armed = true;
+						parity_db::set_number_of_allowed_io_operations(budget);
+					}
+				}
+				let mut stage: Option<parity_db::Result<()>> = None;
+				if std::env::var("VERIF_DEBUG").is_ok() {
+					eprintln!("step {si} {:?} armed {armed} failed {failed} events so far {:?}", std::mem::discriminant(s), with(|t| t.events.clone()).unwrap_or_default().iter().rev().take(12).rev().collect::<Vec<_>>());
+				}
 				match s {
 					Step::Commit(ops) => {
 						let tx: Vec<(u8, Operation<Vec<u8>, Vec<u8>>)> = ops
@@ -638,46 +675,122 @@ pub fn main(args: &[String], kind: &str) -> i32 {
 								})
 							})
 							.collect();
-						if db.commit_changes(tx).is_ok() {
+						let r = db.commit_changes(tx);
+						if r.is_ok() {
 							accepted.push(ops.clone());
+							if failed {
+								*c16_verdict.lock().unwrap() = Some(format!("commit-accepted-after-error step {si}: a commit was accepted although a pipeline stage had failed before"));
+							}
+						} else if std::env::var("VERIF_DEBUG").is_ok() {
+							eprintln!("step {si}: commit refused: {:?}", r.err());
 						}
 					},
-					Step::Process => {
-						db.process_commits().unwrap();
-					},
-					Step::Flush => {
-						db.flush_logs().unwrap();
-					},
+					_ if failed => (), // the workers are gone: nothing moves any more
+					Step::Process => stage = Some(db.process_commits().map(|_| ())),
+					Step::Flush => stage = Some(db.flush_logs().map(|_| ())),
 					Step::EnactAll => {
 						if db.verif_num_dirty_logs() >= 4 {
-							db.clean_logs().unwrap();
+							stage = Some(db.clean_logs());
 						}
-						db.enact_logs().unwrap();
+						if stage.as_ref().map_or(true, |r| r.is_ok()) {
+							stage = Some(db.enact_logs().map(|_| ()));
+						}
 					},
 					Step::EnactOne => {
 						if db.verif_num_dirty_logs() >= 4 {
-							db.clean_logs().unwrap();
+							stage = Some(db.clean_logs());
 						}
-						db.verif_enact_one().unwrap();
+						if stage.as_ref().map_or(true, |r| r.is_ok()) {
+							stage = Some(db.verif_enact_one().map(|_| ()));
+						}
 					},
 					Step::Clean => {
 						IN_CLEAN.store(true, std::sync::atomic::Ordering::SeqCst);
 						let r = db.clean_logs();
 						IN_CLEAN.store(false, std::sync::atomic::Ordering::SeqCst);
-						r.unwrap();
+						stage = Some(r);
 					},
 					_ => (),
+				}
+				if let Some(Err(e)) = stage {
+					if !armed {
+						panic!("stage failed without any injected failure: {e:?}");
+					}
+					// what a background worker does with the error of its stage
+					let synced = with(|t| t.synced_count()).unwrap_or(0);
+					*failure.lock().unwrap() = Some((si, synced, format!("{e:?}")));
+					failed = true;
+					db.verif_store_err(Err(e));
+				}
+				if failed {
+					// reads keep returning committed data: everything accepted so far
+					let got = unarmed(&|| read_vector(&db, &case, &book));
+					let want = spec_vector(&case, &spec_after(&case, &accepted, accepted.len()));
+					// counted columns: while commits are queued (and after a failure they stay queued for ever)
+					// only "positive count => readable with its value" is promised (C07); the rest is exact
+					let nk = case.keys[0].len();
+					let bad = |i: usize, a: u64, b: u64| -> bool { if case.cols[i / nk].rc { a != 0 && a != b } else { a != b } };
+					if want.iter().zip(got.iter()).enumerate().any(|(i, (a, b))| bad(i, *a, *b)) && c16_verdict.lock().unwrap().is_none() {
+						let diffs: Vec<String> = want.iter().zip(got.iter()).enumerate().filter(|(i, (a, b))| bad(*i, **a, **b)).map(|(i, (a, b))| format!("slot{i}: want {a:x} got {b:x}")).take(4).collect();
+						*c16_verdict.lock().unwrap() = Some(format!("read-after-error-wrong step {si}: reads after the failed stage differ from the committed data: {diffs:?}; failure {:?}; steps {:?}", failure.lock().unwrap(), case.steps.iter().map(|s| match s { Step::Commit(o) => format!("C{:?}", o.iter().map(|x| (x.0, x.1, x.2, x.3 >> 32)).collect::<Vec<_>>()), o => format!("{:?}", std::mem::discriminant(o)) }).collect::<Vec<_>>()));
+					}
 				}
 				with(|t| t.sample(1, 4, 1, 4, &format!("after step {:?}", std::mem::discriminant(s))));
 			}
 			with(|t| t.enabled = false);
 			DBPTR.store(0, std::sync::atomic::Ordering::SeqCst);
+			// the failure persists until the handle is gone
+			*synced_at_drop.lock().unwrap() = with(|t| t.synced_count());
+			if lift_before_drop {
+				// a fault that hit the writer but not the shutdown (e.g. a full disk: truncations still work;
+				// or the failing thread was a worker, the dropping thread is not)
+				parity_db::set_number_of_allowed_io_operations(usize::MAX);
+			}
+			with(|t| t.enabled = true);
 			drop(db);
+			with(|t| t.enabled = false);
+			parity_db::set_number_of_allowed_io_operations(usize::MAX);
 		}));
-		if run.is_err() {
-			verdict = Err("panic the implementation panicked while the history ran".into());
+		parity_db::set_number_of_allowed_io_operations(usize::MAX);
+		if let Err(e) = &run {
+			let m = e.downcast_ref::<String>().cloned().or_else(|| e.downcast_ref::<&str>().map(|s| s.to_string())).unwrap_or_default();
+			verdict = Err(format!("{} the implementation panicked while the history ran: {}", if c16 { "error-panic" } else { "panic" }, m.chars().take(160).collect::<String>()));
+		}
+		if c16 && verdict.is_ok() {
+			if let Some(v) = c16_verdict.lock().unwrap().take() {
+				verdict = Err(v);
+			}
 		}
 		let tr = TRACKER.lock().unwrap().take().unwrap();
+		if c16 && verdict.is_ok() {
+			// the fault is gone: the directory the failed handle left behind must open and show a prefix of
+			// the accepted commits that contains everything synced before the failure
+			let fl = failure.lock().unwrap().clone();
+			let (lo, what) = match &fl {
+				Some((si, synced, e)) => (*synced, format!("failure at step {si} ({}), budget {:?}", e.chars().take(60).collect::<String>(), fail_at.map(|x| x.1))),
+				None if fail_at.is_some() => (synced_at_drop.lock().unwrap().unwrap_or(0), format!("no stage failed before the drop, budget {:?}", fail_at)),
+				None => (accepted.len(), "no failure injected".to_string()),
+			};
+			*dist.entry(if fl.is_some() { "histories-with-a-failed-stage".to_string() } else { "histories-without-failure".to_string() }).or_insert(0) += 1;
+			if let Some((si, _, _)) = &fl {
+				*dist.entry(format!("failed-{}", match &case.steps[*si] { Step::Process => "process", Step::Flush => "flush", Step::EnactAll | Step::EnactOne => "enact", Step::Clean => "clean", _ => "other" })).or_insert(0) += 1;
+			}
+			let r = std::panic::catch_unwind(std::panic::AssertUnwindSafe(|| -> Result<(), String> {
+				let db = Db::open(&opts).map_err(|e| format!("error-recovery-failed reopening after the fault is gone failed: {e:?}"))?;
+				let got = read_vector(&db, &case, &book);
+				let any = (0..=accepted.len()).rev().find(|m| spec_vector(&case, &spec_after(&case, &accepted, *m)) == got);
+				match any {
+					Some(m) if m >= lo => Ok(()),
+					Some(m) => Err(format!("error-synced-lost after the fault the database holds the first {m} commits, {lo} had been synced before the failure")),
+					None => Err("error-recovery-not-prefix after the fault the database holds no prefix of the committed transactions".to_string()),
+				}
+			}));
+			match r {
+				Err(_) => verdict = Err(format!("error-panic reopening after the fault panicked [{what}]")),
+				Ok(Err(e)) => verdict = Err(format!("{e} [{what}]")),
+				Ok(Ok(())) => (),
+			}
+		}
 		// ---- the event trace for the proved acceptor
 		let mut toks = vec![12u64, tr.events.len() as u64];
 		for (code, arg) in &tr.events {
